@@ -268,7 +268,8 @@ End == /\ Is("end")
 \* for handles in DOMAIN tok)
 \* heldfree: a stream list was released while a thread was between loading it and the end of that operation
 \* (MQMemImpl: NoUseAfterFree on the ghost holds)
-MemEv == /\ (Is("uaf") \/ Is("badfree") \/ Is("doublefree") \/ Is("earlyfree") \/ Is("tokenless") \/ Is("heldfree"))
+MemEv == /\ (Is("uaf") \/ Is("badfree") \/ Is("doublefree") \/ Is("earlyfree") \/ Is("tokenless") \/ Is("heldfree")
+             \/ Is("lateannounce"))
          /\ Flag({"C16"})
          /\ UNCHANGED <<q, pend, led>>
          /\ l' = l + 1
